@@ -178,6 +178,23 @@ def _square_bound_inclusive(cmp_node, prods):
     return None
 
 
+def _quotient_times_divisor(q, d):
+    """q is  X / d  (directly, or a never re-assigned local initialised that way) for the very same unsigned, unwritten d"""
+    from .ir import _single_def
+    q0, d0 = q.strip_all(), d.strip_all()
+    if q0.k == "DeclRefExpr" and q0.decl and q0.decl.get("k") == "local":
+        init = _single_def(q0)
+        if init is None:
+            return False
+        q0 = init.strip_all()
+    while q0.k in ("ParenExpr", "CXXStaticCastExpr", "CStyleCastExpr", "CXXFunctionalCastExpr", "ImplicitCastExpr") and len(q0.c) == 1:
+        q0 = q0.c[0].strip_all()
+    if not (q0.k == "BinaryOperator" and q0.op == "/" and len(q0.c) == 2 and q0.get("u")):
+        return False
+    dd = q0.c[1].strip_all()
+    return dd.k == "DeclRefExpr" and d0.k == "DeclRefExpr" and dd.decl and d0.decl and dd.decl.get("id") == d0.decl.get("id")
+
+
 def rule_N2(prog, fixture=False):
     res = RuleResult("N2", "in every function reachable from isprime/factor/nextprime/primes, a product of two non-constant "
                            "integers that feeds a comparison or loop condition is computed in a type wide enough to hold it")
@@ -230,6 +247,8 @@ def rule_N2(prog, fixture=False):
                 a, b = x.c
                 if _is_constant(a) or _is_constant(b):
                     continue
+                if _quotient_times_divisor(a, b) or _quotient_times_divisor(b, a):
+                    continue          # (n / d) * d <= n: the back-multiplication of a quotient cannot exceed the dividend
                 wa, wb = _underlying_bits(a), _underlying_bits(b)
                 have = x.get("w", 0) - (0 if x.get("u") else 1)
                 if wa is None or wb is None:
